@@ -89,6 +89,39 @@ fn vp_native_framing_decision_matrix() {
     println!("VP-NATIVE framing_decision_matrix cases={}", cases);
 }
 
+/// C03: the chosen frame bounds the body for every consumer, also for the content decoders that read it through the buffered
+/// interface.  For a Content-Length frame cut anywhere inside (or exactly around) a deflate / gzip stream, what the caller gets
+/// does not depend on the bytes that follow the frame: the same outcome as when nothing follows.
+#[test]
+fn vp_native_frame_bounds_coded_bodies() {
+    use std::io::Write;
+    let payload: Vec<u8> = (0..3000u32).map(|i| (i * 31 % 251) as u8).collect();
+    let mut cases = 0u64;
+    for gzip in [false, true] { for header in ["Content-Encoding", "Transfer-Encoding"] { for level in [0u32, 6] {
+        let stream = if gzip { let mut e = flate2::write::GzEncoder::new(Vec::new(), flate2::Compression::new(level)); e.write_all(&payload).unwrap(); e.finish().unwrap() }
+                     else { let mut e = flate2::write::DeflateEncoder::new(Vec::new(), flate2::Compression::new(level)); e.write_all(&payload).unwrap(); e.finish().unwrap() };
+        let cuts: Vec<usize> = (0..=stream.len()).filter(|&c| c < 40 || c + 40 > stream.len() || c % 97 == 0).collect();
+        for cut in cuts {
+            let head = format!("HTTP/1.1 200 OK\r\n{}: {}\r\nContent-Length: {}\r\n\r\n", header, if gzip { "gzip" } else { "deflate" }, cut);
+            let outcome = |follow: &[u8]| -> Result<Vec<u8>, String> {
+                let mut wire = head.clone().into_bytes(); wire.extend_from_slice(&stream[..cut]); wire.extend_from_slice(follow);
+                let req = PreparedRequest::new(Method::GET, "http://a.test/");
+                parse_response(BaseStream::mock(wire), &req, req.url()).and_then(|r| r.bytes()).map_err(|_| "error".to_string())
+            };
+            let alone = outcome(b"");
+            for follow in [&stream[cut..], &b"HTTP/1.1 200 OK\r\n\r\n"[..], &[0u8; 64][..]] {
+                if follow.is_empty() { continue; }
+                let got = outcome(follow);
+                assert_eq!(got.as_ref().map(|b| b.len()), alone.as_ref().map(|b| b.len()), "bytes after a Content-Length frame of {} octets ({} {}, level {}) changed the outcome", cut, header, if gzip { "gzip" } else { "deflate" }, level);
+                assert_eq!(got, alone, "bytes after a Content-Length frame of {} octets changed the body", cut);
+                cases += 1;
+            }
+            if cut == stream.len() { assert_eq!(alone.as_ref().ok(), Some(&payload), "the whole coded stream inside the frame decodes to the payload"); }
+        }
+    } } }
+    println!("VP-NATIVE frame_bounds_coded_bodies cases={}", cases);
+}
+
 /// C04: heads built from small alphabets parse back to what was sent (names case-insensitively, values trimmed, duplicates in
 /// order, bare-LF folds to spaces, Transfer-Encoding hidden)
 #[test]
